@@ -67,7 +67,7 @@ PKGS = {  # abstract package id -> (import path, package name)
 MAX_SOLO = 48
 GENERIC_POS = ("tparam", "targ", "tparamreal")     # the configured type lives in the source package; I1 may be generic
 SEM = ("pos", "other", "srckind", "target", "level", "place")      # dimensions the contract speaks about (TLC state)
-OBS = ("templ", "listing", "fmt", "kinds", "extra", "tdopt")                                   # how the case is observed / spelled (TLC constants)
+OBS = ("templ", "listing", "fmt", "kinds", "extra", "tdopt", "vis", "dststate")                                   # how the case is observed / spelled (TLC constants)
 DIMS = SEM + OBS
 
 SRC_KINDS = {"s": "struct{ A int }", "b": "string", "i": "interface{ Ping() }"}
@@ -98,7 +98,7 @@ SHARED = {
     "third/legacy/h.go": f'package legacy\n\nimport "{MOD}/orig/foo"\n\n' +
                          "".join(f"// H_{k} is an alias in a third package; it never has a replace-type entry of its own\ntype H_{k} = foo.T_{k}\n\n" for k in SRC_KINDS),
 }
-KINDED = re.compile(r"^(T|TA|R|RA|H|D)_[a-z]$")
+KINDED = re.compile(r"^(T|TA|R|RA|H|D|d|dr)_[a-z]$")
 
 # probe template: per mock and method the rendered parameter / return type strings, and .Imports (path + qualifier)
 PROBE_FILE = vlib.VERIF / "probes" / "replacetype" / "sig.templ"
@@ -114,7 +114,7 @@ def select_cases(rows, obsdims, rng, n, predicted_quota, all_rows=False):
         t = rng.choice(obsdims["templ"])
         f = "noop" if t == "probe" else rng.choice(obsdims["fmt"])
         return tuple(sem) + (t, rng.choice(obsdims["listing"]), f, rng.choice(obsdims["kinds"]), rng.choice(obsdims["extra"]),
-                             rng.choice(obsdims["tdopt"]))
+                             rng.choice(obsdims["tdopt"]), rng.choice(obsdims["vis"]), rng.choice(obsdims["dststate"]))
 
     normal = [r for r in rows if not r[1]]
     pred = [r for r in rows if r[1]]
@@ -128,7 +128,8 @@ def select_cases(rows, obsdims, rng, n, predicted_quota, all_rows=False):
     # what the core must cover: every value pair of the nine dimensions, plus the triples in which the
     # dimensions interact in the code (which config path an interface takes x level x second interface;
     # level x template x target)
-    TRIPLES = (("other", "level", "listing"), ("level", "templ", "target"))
+    TRIPLES = (("other", "level", "listing"), ("level", "templ", "target"),
+               ("target", "place", "vis", "templ"), ("target", "place", "dststate", "vis"))
     ix = {d: i for i, d in enumerate(DIMS)}
 
     def items(d):
@@ -230,7 +231,11 @@ class Case:
         sk, tk = self.kinds[0], self.kinds[1]
         if n in ("T", "TA", "RA", "H"):
             return f"{n}_{sk}"
-        if n in ("R", "D"):
+        if n == "D":
+            # visibility of a replacement that lives in the mock's own package: exported, unexported and not mentioned by any
+            # exported declaration, unexported but reachable from the exported API
+            return {"exp": "D", "unexp": "d", "unexpreach": "dr"}[self.vis] + f"_{tk}"
+        if n == "R":
             return f"{n}_{tk}"
         return n
 
@@ -249,7 +254,10 @@ class Case:
     def d_decl(self):
         v = DST_KINDS[self.kinds[1]]
         name = self.cn("D")
-        return f"type DP struct{{ Z int }}\n\ntype {name} = *DP" if v is None else f"type {name} {v}"
+        decl = f"type DP struct{{ Z int }}\n\ntype {name} = *DP" if v is None else f"type {name} {v}"
+        if self.vis == "unexpreach":
+            decl += f"\n\n// Keep makes {name} part of what the package's exported API mentions\nvar Keep {name}"
+        return decl
 
     # ---- source files
     def sources(self):
@@ -309,6 +317,10 @@ class Case:
         files[f"{self.id}/src/src.go"] = "\n".join(src)
         if self.target == "dstpkg" and self.place == "separate":
             files[f"{self.id}/mocks/own.go"] = "package mocks\n\n// D is a replacement type living in the mock's own destination package\n" + self.d_decl() + "\n"
+            if self.dststate == "pending" and self.templ != "probe" and self.pos not in ("tparam", "tparamreal"):
+                # the destination package does not type-check until the run has written the mock: a hand-written file
+                # there already uses it (first run of a new mock / a stale generated file after a rename)
+                files[f"{self.id}/mocks/uses.go"] = "package mocks\n\n// hand-written helper that is ahead of the generated code\nfunc NewFake() *MockI1 { return &MockI1{} }\n"
         return files
 
     # ---- configuration
@@ -489,27 +501,44 @@ def run_tree(ctx, binp, tree, runs, with_setting, probe_path):
 
     with cf.ThreadPoolExecutor(max_workers=8) as ex:
         first = list(ex.map(lambda r: work(r), runs))
-        retry = []
+        pending = []
         for run, res in first:
             if res.code == 0 or len(run.cases) == 1:
                 done.append((run, res))
                 for c in run.cases:
                     per_case[c.id] = res
             else:
-                for c in run.cases:
-                    retry.append(Run(f"{run.rid}-{c.id}", [c], c.root_mapping() if run.root_mapping else None))
-        if len(retry) > MAX_SOLO:
-            # bound the cost of a tree in which every batch fails: judge a prefix, leave the rest unevaluated
-            for r in retry[MAX_SOLO:]:
-                per_case[r.cases[0].id] = None
-            ctx.note(f"{len(retry) - MAX_SOLO} cases left unevaluated after failed batches (only {MAX_SOLO} single-case re-runs per tree)")
-            retry = retry[:MAX_SOLO]
-        if retry:
-            ctx.note(f"{len(retry)} single-case re-runs after a failed batch ({'with' if with_setting else 'without'} the setting)")
-        for run, res in ex.map(lambda r: work(r, True, "-solo"), retry):
-            done.append((run, res))
-            for c in run.cases:
-                per_case[c.id] = res
+                pending.append(run)
+        # a failed batch is halved until the failing cases stand alone (the others are then judged in their halves);
+        # the number of re-runs per tree is bounded, what is left over stays unevaluated
+        budget, gen = MAX_SOLO, 0
+        while pending and budget > 0:
+            gen += 1
+            halves = []
+            for run in pending:
+                k = (len(run.cases) + 1) // 2
+                for j, part in enumerate((run.cases[:k], run.cases[k:])):
+                    if part:
+                        halves.append(Run(f"{run.rid}.{j}", part, part[0].root_mapping() if run.root_mapping else None))
+            halves, rest = halves[:budget], halves[budget:]
+            budget -= len(halves)
+            for r in rest:
+                for c in r.cases:
+                    per_case[c.id] = None
+            pending = []
+            for run, res in ex.map(lambda r: work(r, True, f"-g{gen}"), halves):
+                if res.code == 0 or len(run.cases) == 1:
+                    done.append((run, res))
+                    for c in run.cases:
+                        per_case[c.id] = res
+                else:
+                    pending.append(run)
+        left = [c for run in pending for c in run.cases]
+        for c in left:
+            per_case[c.id] = None
+        if gen:
+            n_un = sum(1 for v in per_case.values() if v is None)
+            ctx.note(f"failed batches were halved {gen} time(s) ({'with' if with_setting else 'without'} the setting); {n_un} case(s) left unevaluated")
     return per_case, done
 
 
@@ -602,8 +631,8 @@ def observe_all(ctx, drv, tree, cases, label):
 def abstract(t, c):
     """concrete import paths -> abstract package ids of the case (unknown paths stay as they are)"""
     n = t["n"]
-    if t["k"] == "named" and KINDED.match(n) and getattr(c, "kinds", None) and c.cn(n.rsplit("_", 1)[0]) == n:
-        n = n.rsplit("_", 1)[0]
+    if t["k"] == "named" and KINDED.match(n) and getattr(c, "kinds", None):
+        n = next((a for a in ("T", "TA", "R", "RA", "H", "D") if c.cn(a) == n), n)
     pid = c.path_to_id.get(t["p"], t["p"])
     if t["k"] == "named" and n in ("K", "Box") and t["p"] == getattr(c, "srcpath", None):
         pid = "src"          # declared next to the interface (with an in-package mock the source package IS the file's own)
@@ -1239,7 +1268,7 @@ def run(ctx):
         n = 6000 if thorough else 220
         chosen, uncovered = select_cases(rows, obsdims, ctx.rng, n, 40 if thorough else 6)
         for d in unexpected_pred[:20]:
-            chosen.append(tuple(d) + ("testify", "min", "gofmt", "ss", "none", "plain"))
+            chosen.append(tuple(d) + ("testify", "min", "gofmt", "ss", "none", "plain", "exp", "clean"))
     if uncovered:
         raise MachineryError(f"sampling left {uncovered} dimension-value pairs uncovered")
     sem_wanted = sorted({d[:len(SEM)] for d in chosen})
@@ -1297,7 +1326,7 @@ def run(ctx):
                                    " variadic" if m["variadic"] else "") for m in ms]
     shown = set()
     for c in cases:
-        if c.rec["mustchange"] and verdict.get(c.id) is None and len(ctx.cov["samples"]) < 5 and (c.templ, c.level) not in shown \
+        if c.rec["mustchange"] and c.id in verdict and verdict[c.id] is None and c.id in obsB and len(ctx.cov["samples"]) < 5 and (c.templ, c.level) not in shown \
                 and c.level not in {x[1] for x in shown}:
             shown.add((c.templ, c.level))
             ob = obsB[c.id]
